@@ -565,6 +565,125 @@ def r4_9(ctx, fx):
     ctx.floor(rid, n, 10, "call sites of the constraint classifiers")
 
 
+R410_DOMAINS = ("Box", "BD_Shape", "Octagonal_Shape", "Polyhedron", "Grid")
+R410_HELPERS = ("extract_interval_constraint", "extract_bounded_difference", "extract_octagonal_difference")
+
+
+def _trivial_truth(kind, sign):
+    """The relation of a non-empty element with the variable-free constraint `k <kind> 0`, sign = sgn(k)."""
+    if kind == "EQUALITY":
+        return frozenset(("saturates", "is_included")) if sign == 0 else frozenset(("is_disjoint",))
+    if sign < 0:
+        return frozenset(("is_disjoint",))
+    if sign == 0:
+        return frozenset(("saturates", "is_included")) if kind == "NONSTRICT_INEQUALITY" else frozenset(("saturates", "is_disjoint"))
+    return frozenset(("is_included",))
+
+
+def r4_10(ctx):
+    from pplv import absint
+    import re
+    rid = "R4.10"
+    ctx.rule(rid, "a variable-free constraint gets the same answer from every domain: relation_with(const Constraint&) of Box, BD_Shape, Octagonal_Shape, Polyhedron and Grid is interpreted on the finite state kind of constraint {=, >=, >} x sign of the inhomogeneous term, for a non-empty element, along its trivial-constraint paths — the zero-dimensional case, and the case where the domain's extract_* helper reports zero variables — and must answer `k = 0`: saturates and is included for k = 0, disjoint otherwise; `k >= 0`: disjoint / saturates and included / included for k negative / zero / positive; `k > 0`: disjoint / saturates and disjoint / included. (Grid hands equalities to the congruence version: not judged here.)")
+    fx = ctx.extract([F.driver_unit("domains.cc", file_re=r"(Box|BD_Shape|Octagonal_Shape)_templates\.hh"), F.lib_unit("Polyhedron_public.cc"), F.lib_unit("Grid_public.cc")])
+    fns = {}
+    for f in fx.functions:
+        if f.name == "relation_with" and f.clsn in R410_DOMAINS and len(f.params) == 1 and re.search(r"\bConstraint\b", f.params[0]["t"]) and f.cfg:
+            if f.clsn in ("Polyhedron", "Grid") or f.flag("pattern"):
+                fns.setdefault(f.clsn, f)
+    missing = sorted(set(R410_DOMAINS) - set(fns))
+    ctx.require(rid, not missing, "relation_with(const Constraint&) not found for: %s" % ", ".join(missing))
+    n = 0
+    for dom in R410_DOMAINS:
+        f = fns[dom]
+        cn_ = f.params[0]["n"]
+        has_helper = any(f.call_name(c) in R410_HELPERS for c in f.calls())
+        scenarios = ["zero-dimensional"] + (["helper reports no variable"] if has_helper else [])
+        bad = []
+        for scen in scenarios:
+            for kind in ("EQUALITY", "NONSTRICT_INEQUALITY", "STRICT_INEQUALITY"):
+                for sign in (-1, 0, 1):
+                    sd = 0 if scen == "zero-dimensional" else 1
+
+                    def atom(e, env, it, kind=kind, sign=sign, sd=sd):
+                        t = f.text(e).replace(" ", "")
+                        k = e["k"]
+                        if t in ("space_dim", "this->space_dim") and k not in ("call", "mcall", "decl", "var"):
+                            return {sd}
+                        if k == "ref":
+                            if t == "c_space_dim":
+                                return {0}
+                            if t.startswith("Constraint::") and t.split("::")[-1] in ("EQUALITY", "NONSTRICT_INEQUALITY", "STRICT_INEQUALITY"):
+                                return {t.split("::")[-1]}
+                            return None
+                        if k in ("binop", "ocall") and e.get("op") == "&&" and "Poly_Con_Relation" in (e.get("t") or ""):
+                            a, b = e["c"][-2:]
+                            return {x | y for x in it.ev(a, env) for y in it.ev(b, env)}
+                        if k not in ("call", "mcall"):
+                            return None
+                        cn = f.call_name(e).lstrip("~")
+                        if "Poly_Con_Relation" in (e.get("ccls") or "") and cn in ("saturates", "is_included", "is_disjoint", "strictly_intersects", "nothing"):
+                            return {frozenset() if cn == "nothing" else frozenset((cn,))}
+                        if t in ("space_dimension()",):
+                            return {sd}
+                        if t == cn_ + ".space_dimension()":
+                            return {0}
+                        if cn in ("marked_empty", "is_empty") and not f.call_args(e) and "." not in t:
+                            return {False}
+                        if t.startswith(cn_ + "."):
+                            if cn == "is_equality":
+                                return {kind == "EQUALITY"}
+                            if cn == "is_inequality":
+                                return {kind != "EQUALITY"}
+                            if cn == "is_strict_inequality":
+                                return {kind == "STRICT_INEQUALITY"}
+                            if cn == "is_nonstrict_inequality":
+                                return {kind == "NONSTRICT_INEQUALITY"}
+                            if cn == "type":
+                                return {kind}
+                            if cn == "inhomogeneous_term":
+                                return {sign}
+                            if cn == "is_inconsistent":
+                                return {(kind == "EQUALITY" and sign != 0) or (kind == "NONSTRICT_INEQUALITY" and sign < 0) or (kind == "STRICT_INEQUALITY" and sign <= 0)}
+                            if cn == "is_tautological":
+                                return {(kind == "EQUALITY" and sign == 0) or (kind == "NONSTRICT_INEQUALITY" and sign >= 0) or (kind == "STRICT_INEQUALITY" and sign > 0)}
+                        if cn == "sgn" and len(f.call_args(e)) == 1:
+                            return it.ev(f.call_args(e)[0], env)
+                        if cn in R410_HELPERS:
+                            for a in f.call_args(e):
+                                an = f.text(f.deref(a)).strip()
+                                if an.endswith("num_vars") and an in env:
+                                    env[an] = frozenset((0,))
+                            return {True}
+                        if cn == "relation_with" and dom == "Grid":
+                            return {frozenset(("DELEGATED",))}
+                        return None
+                    it = absint.CfgInterp(f, atom)
+                    try:
+                        got = set()
+                        for ret, env, ev_ in it.run({}):
+                            got |= it.ev(ret["c"][0], env)
+                    except absint.Unknown as ex:
+                        raise F.AnalysisBroken("R4.10: %s::relation_with (%s, %s, sign %d): %s — the interpretation does not know this form" % (dom, scen, kind, sign, ex))
+                    n += 1
+                    if got == {frozenset(("DELEGATED",))}:
+                        continue
+                    want = _trivial_truth(kind, sign)
+                    if got != {want}:
+                        bad.append((scen, kind, sign, got, want))
+        sym = {"EQUALITY": "=", "NONSTRICT_INEQUALITY": ">=", "STRICT_INEQUALITY": ">"}
+        kk = {-1: "-1", 0: "0", 1: "1"}
+        show = lambda r: " && ".join(sorted(r)) if r else "nothing"
+        if bad:
+            for scen, kind, sign, got, want in bad:
+                ctx.violation(rid, "%s::relation_with(`%s %s 0`, %s)" % (dom, kk[sign], sym[kind], scen), f.where(),
+                              "the answer is %s; for a non-empty element and the constraint %s %s 0 it must be %s" % (" or ".join(sorted(show(g) for g in got)), kk[sign], sym[kind], show(want)))
+        else:
+            ctx.ok(rid, "%s::relation_with on %d trivial-constraint states" % (dom, 9 * len(scenarios)), f.where())
+    ctx.count(rid, "trivial-constraint states interpreted", n)
+    ctx.floor(rid, n, 72, "trivial-constraint states interpreted")
+
+
 def run(ctx):
     ctx.explanation = ("C04 canonical-form protocol on BD_Shape<mpq_class> / Octagonal_Shape<mpq_class>: flag typestate over CFG paths; "
                        "decides the protocol clause (answers cannot depend on whether an operand happens to be closed/reduced), not the closure arithmetic")
@@ -579,3 +698,4 @@ def run(ctx):
     r4_7(ctx)
     r4_8(ctx)
     r4_9(ctx, fx)
+    r4_10(ctx)
